@@ -338,12 +338,12 @@ func runHTTP(sc httpScenario) (cleanup func()) {
 		cancels = append(cancels, cancelReq, cancelExec)
 	}
 	tr.CloseIdleConnections()
+	srv.Close() // the server's own goroutines are not the subject
 	_ = errs
 	return func() {
 		for _, c := range cancels {
 			c()
 		}
-		srv.Close()
 	}
 }
 
@@ -439,6 +439,11 @@ func judge(t harness.TB, test string, before int, scenario any, desc string) {
 			sig = "leak-hedge"
 		}
 		harness.Violation(t, prop, test, sig, scenario, "%s: %d goroutines with library / HTTP connection frames still alive 30s after everything returned, e.g.\n%s", desc, n, sample)
+	}
+	// unrelated goroutines (the test server's connection handlers, runtime helpers) may take a moment to go away
+	for deadline := time.Now().Add(30 * time.Second); total > before+3 && time.Now().Before(deadline); {
+		time.Sleep(time.Millisecond)
+		_, _, total = leftovers()
 	}
 	if total > before+3 {
 		harness.Violation(t, prop, test, "goroutine-count-grew", scenario, "%s: the number of live goroutines grew from %d to %d over the repetitions", desc, before, total)
